@@ -157,7 +157,11 @@ func c20storage() []catItem {
 	for _, x := range []sdk.Int{sdk.ZeroInt(), sdk.OneInt(), sdk.NewInt(-1), maxInt(), maxInt().Neg()} {
 		items = append(items, catItem{name: "Int/" + x.String(), val: x})
 	}
-	for _, x := range []sdk.Dec{sdk.ZeroDec(), sdk.OneDec(), sdk.SmallestDec(), sdk.NewDecWithPrec(-15, 1), sdk.NewDecFromBigIntWithPrec(new(big.Int).Sub(new(big.Int).Lsh(big.NewInt(1), 255), big.NewInt(1)), 18)} {
+	for _, x := range []sdk.Dec{sdk.ZeroDec(), sdk.OneDec(), sdk.SmallestDec(), sdk.NewDecWithPrec(-15, 1), sdk.NewDecFromBigIntWithPrec(new(big.Int).Sub(new(big.Int).Lsh(big.NewInt(1), 255), big.NewInt(1)), 18),
+		// decimals whose scaled integer needs more than 255 bits (a Dec goes up to 315): an integer part of 2^200, the largest Int as a Dec, the largest Dec and its negative
+		sdk.NewDecFromBigInt(new(big.Int).Lsh(big.NewInt(1), 200)), sdk.NewDecFromInt(maxInt()),
+		sdk.NewDecFromBigIntWithPrec(new(big.Int).Sub(new(big.Int).Lsh(big.NewInt(1), 315), big.NewInt(1)), 18),
+		sdk.NewDecFromBigIntWithPrec(new(big.Int).Neg(new(big.Int).Sub(new(big.Int).Lsh(big.NewInt(1), 315), big.NewInt(1))), 18)} {
 		items = append(items, catItem{name: "Dec/" + x.String(), val: x})
 	}
 	for _, x := range []sdk.Uint{sdk.ZeroUint(), sdk.NewUint(1<<64 - 1), sdk.NewUintFromBigInt(new(big.Int).Lsh(big.NewInt(1), 255)), sdk.NewUintFromBigInt(new(big.Int).Sub(new(big.Int).Lsh(big.NewInt(1), 256), big.NewInt(1)))} {
@@ -667,6 +671,28 @@ func (c *c20) textDecoders() {
 		}
 		if _, pn := guarded(func() error { _, e := sdk.AddressFromHex(g); return e }); pn != "" {
 			c.fail("C20|text|AddressFromHex-panics", fmt.Sprintf("AddressFromHex(%q) panicked: %s", g, pn), g)
+		}
+	}
+	// public keys given as JSON text with hex of the wrong length: an error, never a panic, whether the
+	// concrete type is decoded directly or through the codec as a PublicKey interface value
+	cdc := chain.MakeCodec()
+	for _, hx := range []string{"", "abcd", strings.Repeat("ab", 31), strings.Repeat("ab", 34), strings.Repeat("ab", 64), "zz"} {
+		n += 4
+		js := []byte(`"` + hx + `"`)
+		var ed crypto.Ed25519PublicKey
+		if _, pn := guarded(func() error { return json.Unmarshal(js, &ed) }); pn != "" {
+			c.fail("C20|text|Ed25519PublicKey.UnmarshalJSON-panics", fmt.Sprintf("Ed25519PublicKey.UnmarshalJSON(%s) panicked: %s", js, pn), hx)
+		}
+		var sp crypto.Secp256k1PublicKey
+		if _, pn := guarded(func() error { return json.Unmarshal(js, &sp) }); pn != "" {
+			c.fail("C20|text|Secp256k1PublicKey.UnmarshalJSON-panics", fmt.Sprintf("Secp256k1PublicKey.UnmarshalJSON(%s) panicked: %s", js, pn), hx)
+		}
+		for _, typ := range []string{"crypto/ed25519_public_key", "crypto/secp256k1_public_key"} {
+			wrapped := []byte(`{"type":"` + typ + `","value":"` + hx + `"}`)
+			var pk crypto.PublicKey
+			if _, pn := guarded(func() error { return cdc.UnmarshalJSON(wrapped, &pk) }); pn != "" {
+				c.fail("C20|text|PublicKey-interface-JSON-panics", fmt.Sprintf("codec.UnmarshalJSON(%s) into a PublicKey panicked: %s", wrapped, pn), hx)
+			}
 		}
 	}
 	c.count("text decoders", n)
